@@ -9,8 +9,11 @@
      instance located on it counted once) + the requests pending on that node + e is <= 100.
    * [inst_total] / [node_total] : load + pending requests of the instance / of its node.
    * [candidates L ids] : the eligible instances in declared order (a repeated candidate counts at its first place).
-   * H_nodes_nodup / H_nodes_consistent are the two named hypotheses of the true node-load reading
-     (candidate finding F6 falsifies the first one: see nodes_double_count_refuted). *)
+   * H_nodes_nodup / H_nodes_consistent are the two named hypotheses of the true node-load reading.
+     H_nodes_nodup holds of every mapper.nodes built by SupvisorsMapper.identify since fix 428ae17 (handshakes_nodup;
+     checked on the real code by the T3 suite 'identify'); it cannot be dropped (nodes_nodup_needed).
+   * [eligible c i] : instance i knows the program of command c and has it enabled;
+     [retarget c t] : command c with target t. *)
 From Coq Require Import List ZArith.
 From Sup Require Import Base Strategy StrategyProofs.
 Import ListNotations.
@@ -125,8 +128,7 @@ Theorem single_instance_one_target : forall L,
     let nl := node_true_load L in
     (exists t,
         j_identifiers J' = [t]
-        /\ Forall2 (fun c c' => c' = mkCmd (c_proc c) (c_load c) (c_stopped c) (Some t) (c_known c))
-                   (j_planned J) (j_planned J')
+        /\ Forall2 (fun c c' => c' = retarget c t /\ In t (c_known c)) (j_planned J) (j_planned J')
         /\ In t app_ids
         /\ Valid nl L app_ids app_load (load_requests J) t
         /\ spec_accepts nl s local L app_ids app_load (load_requests J) (Some t) = true)
@@ -144,10 +146,13 @@ Theorem single_node_one_node : forall L,
            aget m (l_nodes L) = Some ids_m
            /\ node_opt L i0 = Some m /\ Valid nl L app_ids app_load (load_requests J) i0
            /\ j_identifiers J' = filter (fun i => zmem i ids_m) app_ids
-           /\ Forall2 (fun c c' => exists t,
-                           c' = mkCmd (c_proc c) (c_load c) (c_stopped c) (Some t) (c_known c)
-                           /\ In t ids_m /\ In t app_ids
-                           /\ spec_accepts nl s local L (j_identifiers J') (c_load c) (load_requests J) (Some t) = true)
+           /\ Forall2 (fun c c' =>
+                         (c' = c /\ forall i, (s = S_LOCAL -> i = local) ->
+                                      ~ Valid nl L (filter (eligible c) (j_identifiers J')) (c_load c) (load_requests J) i)
+                         \/ (exists t, c' = retarget c t
+                                       /\ In t ids_m /\ In t app_ids /\ eligible c t = true
+                                       /\ spec_accepts nl s local L (filter (eligible c) (j_identifiers J'))
+                                                       (c_load c) (load_requests J) (Some t) = true))
                       (j_planned J) (j_planned J')).
 Proof. exact single_node_one_node_true. Qed.
 
@@ -155,6 +160,7 @@ Theorem single_node_targets_same_node : forall nl L,
   (forall m, nl m = node_code_load L m) ->
   forall s local app_ids app_load J J',
     nodes_consistent L = true ->
+    (forall c, In c (j_planned J) -> c_target c = None) ->
     distribute_to_single_node s local L app_ids app_load J = Ok J' ->
     j_identifiers J' <> [] ->
     exists m, forall c' t, In c' (j_planned J') -> c_target c' = Some t -> node_opt L t = Some m.
@@ -166,41 +172,45 @@ Theorem on_command_added_in_identifiers : forall L,
     on_command_added d s local L J c = Ok c' ->
     c' = c
     \/ (d <> D_ALL_INSTANCES /\ exists t,
-           c' = mkCmd (c_proc c) (c_load c) (c_stopped c) (Some t) (c_known c)
-           /\ In t (j_identifiers J)
-           /\ spec_accepts (node_true_load L) s local L (j_identifiers J) (c_load c) (load_requests J) (Some t) = true).
+           c' = retarget c t /\ In t (j_identifiers J) /\ eligible c t = true
+           /\ spec_accepts (node_true_load L) s local L (filter (eligible c) (j_identifiers J)) (c_load c)
+                           (load_requests J) (Some t) = true).
 Proof. exact on_command_added_in_identifiers_true. Qed.
 
+(* the distribution rules raise nothing on a well-formed layout (SINGLE_NODE and on_command_added: no other
+   hypothesis since fix b1324b8; SINGLE_INSTANCE: every program known by every application identifier, which is what
+   ApplicationStatus.possible_identifiers returns) *)
 Theorem single_node_no_crash : forall L s local app_ids app_load J,
-  layout_wf L (load_requests J) = true -> nodes_consistent L = true ->
-  (forall c, In c (j_planned J) -> c_load c <= app_load) ->                        (* H_cmd_in_sequence *)
-  (forall c i, In c (j_planned J) -> In i app_ids -> In i (c_known c)) ->         (* H_node_knows_all *)
+  layout_wf L (load_requests J) = true ->
   exists J', distribute_to_single_node s local L app_ids app_load J = Ok J'.
 Proof. exact single_node_no_crash. Qed.
 
-(* ---- refuted full-strength statements (candidate findings, replayed on the real classes by the drivers) ---- *)
-(* F6: without H_nodes_nodup the true-reading statement is false *)
-Theorem nodes_double_count_refuted :
+Theorem single_instance_no_crash : forall L s local app_ids app_load J,
+  layout_wf L (load_requests J) = true ->
+  (forall c i, In c (j_planned J) -> In i app_ids -> In i (c_known c)) ->
+  exists J', distribute_to_single_instance s local L app_ids app_load J = Ok J'.
+Proof. exact single_instance_no_crash. Qed.
+
+Theorem on_command_added_no_crash : forall L d s local J c,
+  layout_wf L (load_requests J) = true -> exists c', on_command_added d s local L J c = Ok c'.
+Proof. exact on_command_added_no_crash. Qed.
+
+(* ---- where H_nodes_nodup comes from, and why it is needed ----------------------------------------------------- *)
+(* SupvisorsMapper.identify (the only writer of mapper.nodes) keeps every node list duplicate free *)
+Theorem identify_preserves_nodup : forall nodes m i,
+  forallb (fun kv => znodup (snd kv)) nodes = true ->
+  forallb (fun kv => znodup (snd kv)) (identify_nodes nodes m i) = true.
+Proof. exact identify_preserves_nodup. Qed.
+
+Theorem handshakes_nodup : forall ops insts, nodes_nodup (mkLayout insts (snd (hs_run ops))) = true.
+Proof. exact handshakes_nodup. Qed.
+
+(* on a node list with a repeated identifier the true-reading statement is false (the hypothesis is not superfluous) *)
+Theorem nodes_nodup_needed :
   exists L ids e reqs,
     layout_wf L reqs = true /\ nodes_consistent L = true /\ nodes_nodup L = false
     /\ get_supvisors_instance S_CONFIG 1 L ids e reqs = Ok None
     /\ spec_accepts (node_true_load L) S_CONFIG 1 L ids e reqs None = false
     /\ spec_accepts (node_true_load L) S_CONFIG 1 L ids e reqs (Some 1) = true
     /\ node_code_load L 1 = 2 * node_true_load L 1.
-Proof. exact nodes_double_count. Qed.
-
-(* F7: without H_node_knows_all, SINGLE_NODE raises TypeError *)
-Theorem single_node_unknown_process_refuted :
-  exists L app_ids app_load J,
-    layout_wf L (load_requests J) = true /\ nodes_consistent L = true /\ nodes_nodup L = true
-    /\ (forall c, In c (j_planned J) -> c_load c <= app_load)
-    /\ distribute_to_single_node S_CONFIG 1 L app_ids app_load J = Crash TypeError.
-Proof. exact single_node_unknown_process_crashes. Qed.
-
-(* without H_cmd_in_sequence, SINGLE_NODE raises KeyError (update_identifier(None)) *)
-Theorem single_node_overload_refuted :
-  exists L app_ids app_load J,
-    layout_wf L (load_requests J) = true /\ nodes_consistent L = true /\ nodes_nodup L = true
-    /\ (forall c i, In c (j_planned J) -> In i app_ids -> In i (c_known c))
-    /\ distribute_to_single_node S_CONFIG 1 L app_ids app_load J = Crash KeyError.
-Proof. exact single_node_overload_crashes. Qed.
+Proof. exact nodes_nodup_needed. Qed.
